@@ -429,30 +429,6 @@ pub fn replay_ops(line: &str, kind: &str) -> Option<String> {
     }
 }
 
-pub fn unesc(s: &str) -> String {
-    let mut out = String::new();
-    let mut it = s.chars().peekable();
-    while let Some(c) = it.next() {
-        if c == '\\' {
-            let mut hex = String::new();
-            for d in it.by_ref() {
-                if d == ';' {
-                    break;
-                }
-                hex.push(d);
-            }
-            if hex != "e" {
-                if let Some(ch) = u32::from_str_radix(&hex, 16).ok().and_then(char::from_u32) {
-                    out.push(ch);
-                }
-            }
-        } else {
-            out.push(c);
-        }
-    }
-    out
-}
-
 #[derive(Clone, Debug, PartialEq)]
 pub enum Res {
     Ok,
